@@ -7,6 +7,6 @@ CONSTANTS
   AsIs = {}
   Scenarios <- MCScen
 SPECIFICATION Spec
-INVARIANTS TypeOK ExactRange RightBlock OnlyActive Linked OpenNeeded OpenBound Reopened ExitZeroComplete Emit
+INVARIANTS TypeOK IgnoreForeignKeys ExactRange RightBlock OnlyActive Linked OpenNeeded OpenBound Reopened ExitZeroComplete Emit
 PROPERTY DeliverNext
 CHECK_DEADLOCK FALSE
